@@ -14,7 +14,7 @@ import (
 
 func init() {
 	Registry["C02"] = Set{
-		Explanation: "Decides the structural clauses of local delivery: D1 every successful push on a process/meta mailbox queue is followed on every path by a wake-up of the same process object; D2 the branch taken when the push is refused never returns nil and the accepted branch never returns an error constant, lookups that fail return an error before any push; D3 after the runner's release transition (CAS Running->Sleep / Unlock) every path to return has seen every queue of the mailbox empty or re-acquires (no lost wake-up, Dekker ordering against D1); D4 the fallback re-route wraps the refused target's pid, its tag and the original message and is guarded by Enable and Name != own name; D5 SendAfter hands back the Stop of the very timer whose callback performs exactly one route call. Added while probing: D6 a push that was refused releases or reroutes its mailbox message exactly once; D7 every QueueMPSC.Push returns true only after the item was linked and false without touching the list; D8 the alive predicate accepts exactly Init, Sleep, Running, WaitResponse; D9 each Route* builds the mailbox message from its own arguments (From, Message, Type, and Ref for calls); D3 also covers the network receive producer: the frame is pushed before the queue lock is tried and the lock is tried after every push. D10 the functions that deliver a message, request, inspect request or forwarded message into another process's mailbox push only behind the true edge of that process's alive predicate (exit/event/log helpers are listed exemptions).",
+		Explanation: "Decides the structural clauses of local delivery: D1 every successful push on a process/meta mailbox queue is followed on every path by a wake-up of the same process object; D2 the branch taken when the push is refused never returns nil and the accepted branch never returns an error constant, lookups that fail return an error before any push; D3 after the runner's release transition (CAS Running->Sleep / Unlock) every path to return has seen every queue of the mailbox empty or re-acquires (no lost wake-up, Dekker ordering against D1); D4 the fallback re-route wraps the refused target's pid, its tag and the original message and is guarded by Enable and Name != own name; D5 SendAfter hands back the Stop of the very timer whose callback performs exactly one route call. Added while probing: D6 a push that was refused releases or reroutes its mailbox message exactly once; D7 every QueueMPSC.Push returns true only after the item was linked and false without touching the list; D8 the alive predicate accepts exactly Init, Sleep, Running, WaitResponse; D9 each Route* builds the mailbox message from its own arguments (From, Message, Type, and Ref for calls); D3 also covers the network receive producer: the frame is pushed before the queue lock is tried and the lock is tried after every push. D10 the functions that deliver a message, request, inspect request or forwarded message into another process's mailbox push only behind the true edge of that process's alive predicate (exit/event/log helpers are listed exemptions). D11 inside one function a released mailbox message is neither released again nor handed on (forward data flow of the set of released SSA values, through phi nodes, killed at re-definition).",
 		NotDecided: []string{
 			"linearizability of the lock-free MPSC queue under concurrent producers",
 			"exactly-once on the consumer side (one handler call per popped message)",
@@ -374,6 +374,7 @@ func runC02(p *load.Program, r *core.Report) {
 		}
 	}
 
+	pooledIntra(a.P, r, "C02.D11 mailbox-message-released-once", "C02.D11", 5, "mailbox message", func(*ssa.Function) bool { return true })
 	c02Lookup(a, r, pushes)
 	c02SleepRecheck(a, r)
 	c02Fallback(a, r, pushes)
